@@ -19,6 +19,7 @@ VALUES = [('red', ['red']), ('1px', ['1px']), ('10px 20px', ['10px', '20px']), (
           ('1px\n  2px', ['1px', '2px']), ('a/b', ['a', 'b']), ('x(y) z(w (v)) u', ['x(y)', 'z(w (v))', 'u']),
           ('"a\\\n;b}"', ['"a\\\n;b}"']), ("'x\\\n{ y: z; }'", ["'x\\\n{ y: z; }'"]), ('"x\\";y" attr(t)', ['"x\\";y"', 'attr(t)']),
           ('variant($bg: darken($c, 5%), $border: $c)', ['variant($bg: darken($c, 5%), $border: $c)']), ('f(a(b), c: d; e)', ['f(a(b), c: d; e)']), ('m((1), x: { y })', ['m((1), x: { y })']),
+          ('url( "smile:).png")', ['url( "smile:).png")']), ("URL( 'a(b' ) no-repeat", ["URL( 'a(b' )", 'no-repeat']),
           ("f(1 /* don't */)", ["f(1 /* don't */)"]), ('h(/* { */ 3)', ['h(/* { */ 3)']),
           ('"it\'s };"', ['"it\'s };"']), ("'say \"}\" {'", ["'say \"}\" {'"]), ('"a\'" \'b"{\'', ['"a\'"', '\'b"{\''])]
 
@@ -118,6 +119,8 @@ def cases(tier, seed, prop):
                 out.append({'s': s, 'g': 'deep-sheet', 'truth': items}); continue
             s, items = gen_sheet(rnd, rnd.randint(1, 8), stmts=rnd.choice([0, 0, .3]))
             if len(s) > 240: continue
+            if rnd.random() < .06:
+                pre_ = '/*' + 'p' * rnd.randint(260, 300) + '*/'; s = pre_ + s; items = gens.shift(items, len(pre_))
             out.append({'s': s, 'g': 'sheet', 'truth': items})
     return out
 
